@@ -179,10 +179,102 @@ def check_case(case, counters, sets):
     return asyncrun.check_c05(case, counters, sets)
 
 
+FLUSH_CHILD = r'''
+import asyncio, json, os, sys, time
+sys.path.insert(0, os.environ['STREAMZ_SRC'])
+case = json.loads(sys.argv[1])
+from streamz import Stream
+from streamz.core import RefCounter
+src = Stream(asynchronous=False)
+node = src
+if case['before'] == 'map':
+    node = node.map(lambda x: x)
+c = node.collect()
+got, done = [], []
+tail = c
+if case['between'] == 'map':
+    tail = tail.map(lambda x: x)
+elif case['between'] == 'buffer':
+    tail = tail.buffer(2)
+elif case['between'] == 'delay':
+    tail = tail.delay(0.01)
+if case['sink'] == 'coro':
+    async def consumer(x):
+        await asyncio.sleep(case['svc'])
+        got.append(list(x))
+else:
+    def consumer(x):
+        got.append(list(x))
+tail.sink(consumer)
+refs, sent = [], []
+for rnd in range(case['rounds']):
+    for i in range(case['n']):
+        r = RefCounter(cb=lambda k=len(refs): done.append(k), loop=src.loop)
+        refs.append(r)
+        sent.append(len(sent))
+        src.emit(sent[-1], metadata=[{'ref': r}])
+    c.flush()                    # from the user's thread, like the emits
+t0 = time.time()
+want = case['rounds']
+while time.time() - t0 < 5 and not (len(got) >= want and all(r.count == 0 for r in refs) and len(done) == len(refs)):
+    time.sleep(0.01)
+print('RESULT ' + json.dumps({'got': got, 'counts': [r.count for r in refs], 'done': sorted(done), 'sent': sent}), flush=True)
+os._exit(0)
+'''
+
+
+def check_flush_from_user_thread(case, counters, sets):
+    """A blocking pipeline (its loop runs in the background thread) fed and flushed from the user's thread: once things have
+    settled (bounded: 5 s after the last flush returned; a correct run needs none of it) every collection has reached the
+    consumer, every counter is back at zero and every completion callback has run.  In a child process (real threads)."""
+    import json
+    import os
+    import subprocess
+    import sys
+    try:
+        r = subprocess.run([sys.executable, '-W', 'ignore', '-c', FLUSH_CHILD, json.dumps(case)], capture_output=True, timeout=60,
+                           env=dict(os.environ, STREAMZ_SRC=os.environ.get('STREAMZ_SRC', '/repo')))
+    except subprocess.TimeoutExpired:
+        return None
+    line = [ln for ln in r.stdout.decode('utf8', 'replace').splitlines() if ln.startswith('RESULT ')]
+    if not line:
+        return None
+    o = json.loads(line[-1][7:])
+    viols = []
+    n, rounds = case['n'], case['rounds']
+    exp = [list(range(k * n, (k + 1) * n)) for k in range(rounds)]
+    counters['counter_vs_holders_comparisons'] = counters.get('counter_vs_holders_comparisons', 0) + len(o['counts'])
+    counters['counters_expected_zero'] = counters.get('counters_expected_zero', 0) + len(o['counts'])
+    counters['collections_flushed_from_the_user_thread'] = counters.get('collections_flushed_from_the_user_thread', 0) + rounds
+    where = 'collect-flushed-from-the-user-thread[%s sink]' % case['sink']
+    if o['got'] != exp:
+        viols.append({'key': 'C05:collection-never-delivered@' + where, 'case': case,
+                      'what': 'blocking pipeline, %d flush() calls from the user thread: the consumer received %s, expected %s; counters %s'
+                              % (rounds, o['got'], exp, o['counts'])})
+    elif any(o['counts']):
+        viols.append({'key': 'C05:balance@' + where, 'case': case,
+                      'what': 'all collections delivered, counters %s instead of all zero' % o['counts']})
+    elif o['done'] != list(range(len(o['counts']))):
+        viols.append({'key': 'C05:no-signal-at-zero@' + where, 'case': case,
+                      'what': 'counters all zero but completion callbacks ran only for %s' % o['done']})
+    return viols
+
+
 def run_shard(seed, tier, shard, nshards):
     rng = random.Random('%s-%d-%d-%s' % (PID, seed, shard, tier))
     out = {'evaluations': 0, 'keys': [], 'violations': [], 'samples': [], 'counters': {},
            'sets': {}, 'inconclusive': []}
+    for k in range(12 if tier == 'thorough' else 3):
+        case = {'flush_thread': True, 'n': rng.choice([1, 2, 3]), 'rounds': rng.choice([1, 2, 3]), 'before': rng.choice([None, 'map']),
+                'between': rng.choice([None, None, 'map', 'buffer', 'delay']), 'sink': rng.choice(['sync', 'coro', 'coro']),
+                'svc': rng.choice([0, 0.005, 0.02])}
+        v = check_flush_from_user_thread(case, out['counters'], out['sets'])
+        out['evaluations'] += 1
+        if v is None:
+            out['inconclusive'].append('flush-from-user-thread case %d: child gave no result' % k)
+            continue
+        out['violations'].extend(v)
+        out['keys'].append(progs.prog_key(case, None))
     for k in range(n_cases(tier)):
         case = one_case(rng, tier)
         res, viols = check_case(case, out['counters'], out['sets'])
@@ -205,6 +297,8 @@ def run_shard(seed, tier, shard, nshards):
 
 
 def replay(case):
+    if case.get('flush_thread'):
+        return check_flush_from_user_thread(case, {}, {}) or []
     _, viols = check_case(case, {}, {})
     return viols
 
